@@ -203,3 +203,16 @@ func userMailbox(u *User, name string) *Mailbox { return u.mailboxes[name] }
 //@   ensures err == nil ==> old(userMailbox(u, strings.TrimRight(newName, string(mailboxDelim)))) == nil
 //@   ensures err == nil && oldName != strings.TrimRight(newName, string(mailboxDelim)) ==> userMailbox(u, strings.TrimRight(newName, string(mailboxDelim))) != nil && userMailbox(u, oldName) == nil
 //@   ensures err != nil ==> userMailbox(u, oldName) == old(userMailbox(u, oldName))
+
+// forEachLocked: the callback receives a message of the mailbox together with
+// that message's own (server-side) sequence number - never the number the
+// client knows it by - for every number set and tracker state.
+//
+//@ func (mbox *MailboxView) forEachLocked(numSet imap.NumSet, f func(seqNum uint32, msg *message))
+//@   props C08:callsite,bounds,inv-init,inv-step
+//@   requires mbox.Mailbox != nil && mbox.tracker != nil && len(mbox.l) < 0xFFFFFFFF
+//@   callsite f(seqNum uint32, msg *message) requires seqNum >= 1 && int(seqNum) <= len(mbox.l) && mbox.l[seqNum-1] == msg
+//@   loop 0 vars (i int)
+//@   loop 0 invariant -1 <= i && i < len(mbox.l)
+//@   loop 0 invariant mbox.Mailbox == old(mbox.Mailbox) && __same(mbox.l, old(mbox.l))
+//@   loop 0 invariant forall k int :: 0 <= k && k < len(mbox.l) ==> mbox.l[k] == old(mbox.l[k])
